@@ -547,6 +547,136 @@ func genReg(r *hx.Rng, c *Case, g, n int) {
 	}
 }
 
+// ---------- service.Message registry: register / unregister / deliver a state message to every subscriber ----------
+
+type msgInst struct {
+	m   service.Message
+	ct  *ctl
+	chs []chan service.StateMsg
+}
+
+func newMsgInst(_ Case, ct *ctl) (Inst, error) {
+	w := &msgInst{ct: ct}
+	for i := 0; i < 4; i++ {
+		w.chs = append(w.chs, make(chan service.StateMsg, 256))
+	}
+
+	return w, nil
+}
+
+func (w *msgInst) Close() {}
+
+func (w *msgInst) Exec(_ int, o *Op) Out {
+	switch o.Kind {
+	case "mreg":
+		if err := w.m.RegisterMsgEvent(w.chs[o.U-1]); err != nil {
+			return Out{Kind: "err", Err: err.Error()}
+		}
+
+		return Out{Kind: "ok"}
+	case "munreg":
+		if err := w.m.UnregisterMsgEvent(w.chs[o.U-1]); err != nil {
+			return Out{Kind: "err", Err: err.Error()}
+		}
+
+		return Out{Kind: "ok"}
+	case "deliver":
+		// what every protocol service does with a state message (e.g. didexchange sendMsgEvents)
+		served := []int{}
+
+		for _, handler := range w.m.MsgEvents() {
+			w.ct.point(true) // the service does work between two sends (stress: yields; forced: park point)
+
+			id := 77
+
+			for i, c := range w.chs {
+				if (chan<- service.StateMsg)(c) == handler {
+					id = i + 1
+				}
+			}
+
+			select {
+			case handler <- service.StateMsg{}:
+			default:
+			}
+
+			served = append(served, id)
+		}
+
+		return Out{Kind: "served", Vs: served}
+	}
+
+	return Out{Kind: "err"}
+}
+
+type listState struct{ l []int }
+
+func (s *listState) Key() string { return fmt.Sprint(s.l) }
+
+type msgModel struct{}
+
+func (msgModel) Init() State { return &listState{} }
+
+func (msgModel) Step(st State, o Op, got Out) (State, bool) {
+	s, _ := st.(*listState)
+
+	switch o.Kind {
+	case "mreg":
+		return &listState{l: append(append([]int{}, s.l...), o.U)}, got.Kind == "ok"
+	case "munreg":
+		n := &listState{}
+
+		for _, x := range s.l {
+			if x != o.U {
+				n.l = append(n.l, x)
+			}
+		}
+
+		return n, got.Kind == "ok"
+	case "deliver":
+		return s, got.Kind == "served" && eqInts(got.Vs, s.l)
+	}
+
+	return s, false
+}
+
+func coqMsg(_ Case, h []Ev, w []int) string {
+	items := make([]string, len(h))
+
+	for i, e := range h {
+		op := "MDeliver"
+
+		switch e.Op.Kind {
+		case "mreg":
+			op = fmt.Sprintf("MReg %d", e.Op.U)
+		case "munreg":
+			op = fmt.Sprintf("MUnreg %d", e.Op.U)
+		}
+
+		out := "MOk"
+		if e.Out.Kind == "served" {
+			out = "MList " + coqNs(e.Out.Vs)
+		} else if e.Out.Kind != "ok" {
+			out = "MList [7777]" // an error: no specification step of Reg/Unreg produces a list
+		}
+
+		items[i] = hrec(op, out, e)
+	}
+
+	return "HMsg " + hx.CoqList(items) + " " + coqNats(w)
+}
+
+func genMsg(r *hx.Rng, c *Case, g, n int) {
+	c.Threads = make([][]Op, g)
+
+	for t := 0; t < g; t++ {
+		for i := 0; i < n; i++ {
+			k := []string{"mreg", "mreg", "munreg", "munreg", "deliver", "deliver", "deliver"}[r.Intn(7)]
+			c.Threads[t] = append(c.Threads[t], Op{Kind: k, U: 1 + r.Intn(4)})
+		}
+	}
+}
+
 // ---------- mediator inbox (message pickup) ----------
 
 type inboxInst struct {
@@ -961,6 +1091,7 @@ func components() map[string]*Comp {
 			New:   func(Case, *ctl) (Inst, error) { return &sessInst{m: wallet.NewVerifSessionManager()}, nil },
 			Model: func(Case) Model { return sessModel{} }, Gen: genSess, Coq: coqSess,
 		},
+		"msg":   {Name: "msg", Forced: true, New: newMsgInst, Model: func(Case) Model { return msgModel{} }, Gen: genMsg, Coq: coqMsg},
 		"reg":   {Name: "reg", New: newRegInst, Model: func(Case) Model { return regModel{} }, Gen: genReg, Coq: coqReg},
 		"inbox": {Name: "inbox", Forced: true, New: newInboxInst, Model: func(Case) Model { return inboxModel{} }, Gen: genInbox, Coq: coqInbox},
 		"pool": {
